@@ -172,6 +172,7 @@ type mgrSys struct {
 	Remote    map[string][]string
 	Endpoints []string
 	Selects   bool
+	Echo      bool
 }
 
 type mgrInst struct {
@@ -196,6 +197,11 @@ func (in *mgrInst) Enabled() []mgrEvent {
 		}
 		// removal is always possible: duplicates, late removals, unknown
 		evs = append(evs, mgrEvent{Kind: "remove", U: i})
+	}
+	if in.sys.Echo {
+		// a peer that remembers an earlier incarnation of this node (same id,
+		// restarted without leaving) sends that state back
+		evs = append(evs, mgrEvent{Kind: "echo"})
 	}
 	if in.sys.Selects {
 		for _, e := range in.sys.Endpoints {
@@ -247,6 +253,13 @@ func (in *mgrInst) step(e mgrEvent, check bool) (vs []mc.Violation) {
 			in.st.mgr.RemoveConn(in.st.ups[e.U])
 		case "select":
 			su, sok = in.st.mgr.Select(e.E, e.Allow)
+		case "echo":
+			in.st.gs.ApplyDigest(gossip.VDigest{{ID: "local", Addr: "10.0.0.1:7000", Version: 5000}})
+			in.st.gs.ApplyDelta(gossip.VDelta{{ID: "local", Addr: "10.0.0.1:7000", Entries: []gossip.Entry{
+				{Key: "endpoint:e1", Value: "7", Version: 1000},
+				{Key: "endpoint:ghost", Value: "1", Version: 1001},
+				{Key: "endpoint:e2", Version: 1002, Deleted: true},
+			}}})
 		}
 		// a lock left held by this very call would block the next one: take
 		// and release it once more inside the watchdog
